@@ -287,8 +287,12 @@ def _only_key_use(x, defs, fn, _seen=None):
     _seen.add(id(x))
     top = x
     par = getattr(top, '_parent', None)
-    while isinstance(par, (ast.BinOp, ast.Tuple)):
+    while isinstance(par, (ast.BinOp, ast.Tuple)) or (isinstance(par, ast.Call) and call_name(par) == 'next' and par.args and par.args[0] is top):
+        # next(<the candidates>, default): the first candidate itself
         top, par = par, getattr(par, '_parent', None)
+    if isinstance(par, ast.Compare) and all(isinstance(o, (ast.Is, ast.IsNot)) for o in par.ops) and \
+            all(isinstance(c, ast.Constant) and c.value is None for c in par.comparators):
+        return True         # `found is None`: nothing of the text is used
     if isinstance(par, ast.Assign) and isinstance(par.targets[0], ast.Name):
         name = par.targets[0].id
         uses = [n for n in fn.walk() if isinstance(n, ast.Name) and n.id == name and isinstance(n.ctx, ast.Load)]
